@@ -303,6 +303,16 @@ def oracle(case, res):
             want = sorted(norm(t) for t in srv)
             if got != want:
                 return (i, "Toxics() on a %s handle returned %s but the server holds %s" % (op.get("via"), json.dumps(got)[:300], json.dumps(want)[:300]))
+        # errors are surfaced: when the last answer the server gave while the operation ran was a rejection, the operation reports
+        # a failure (library: an error; CLI: a non-zero exit) - and it does not report one when every answer was a success
+        served = r.get("served") or []
+        if served and op["op"] not in ("toxics",):
+            if served[-1] >= 400 and not r["err"]:
+                return (i, "%s: the server answered %d to the operation's last request, yet the operation reported success%s"
+                        % (op["op"] if op["op"] != "cli" else "cli " + " ".join(op.get("args", [])[:4]), served[-1],
+                           (" (printed: %s)" % r.get("out", "").strip()[:80]) if op["op"] == "cli" else ""))
+            if all(200 <= c < 300 for c in served) and r["err"] and op["op"] != "cli":
+                return (i, "%s: every answer of the server was a success (%s), yet the operation reported: %s" % (op["op"], served, r["err"][:120]))
         prev = after if after[0] == "proxies" else ("proxies", [])
     return None
 
@@ -372,7 +382,9 @@ def run(ctx):
         key = ("cli-update-resets-toxicity" if "without a toxicity" in w and "(cli)" in w else
                "update-changes-unspecified-toxicity" if "without a toxicity" in w else
                "populate-handle-sends-create" if "409" in w else
-               "success-but-not-applied" if "returned success" in w else "returned-value" if "value returned" in w else "crash")
+               "success-but-not-applied" if "returned success" in w else "returned-value" if "value returned" in w else
+               "rejection-not-surfaced" if "reported success" in w else "spurious-error" if "every answer of the server was a success" in w else
+               "read-back" if "returned" in w and "server holds" in w else "crash" if "crashed" in w else "other")
         if key in seen:
             continue
         seen.add(key)
